@@ -209,7 +209,7 @@ func ruleFlagImplications(w *World, r *RuleResult) {
 				case u.bits&rounded != 0:
 					r.ok(key, w.instrPos(u.site), "constant carries Rounded too", false)
 				default:
-					before := seenBefore(u.site, orsBit(rounded))
+					before := seenBefore(u.site, orsBit(rounded)) || orsBit(rounded)(u.site)
 					after, _ := mustPassFrom(u.site, orsBit(rounded), func(rt *ssa.Return) bool { return w.isErrorReturn(rt) })
 					if before || after {
 						r.ok(key, w.instrPos(u.site), "Rounded is or-ed on every path through this site", true)
@@ -303,6 +303,7 @@ var discardTable = map[string]string{
 	"makeConstWithPrecision -> (*Context).Round":       "package constant; error is checked",
 	"(*Context).Ln -> (*Decimal).SetFloat64":           "initial estimate only",
 	"(*Context).Cbrt -> (*Context).goError":            "kept: res,err both used",
+	"(*Context).Sqrt -> (*Context).round":              "truncation of the iterate to the candidate the exactness test works on: its flags describe a value that is only compared with the operand (the result's own rounding is a second call, whose flags are returned)",
 	"(*Context).Cbrt -> (*Context).round":              "the nearest-rounded candidate of the exactness test: its flags describe a value that is only compared with the operand (the result's own rounding is a second call, whose flags are returned)",
 }
 
@@ -371,6 +372,15 @@ func ruleNoFlagDropped(w *World, r *RuleResult) {
 				}
 			}
 			base := fmt.Sprintf("%s -> %s", name, gn)
+			if discardTable[base] == "" {
+				// a helper extracted from a tabled function inherits its entry
+				for k := range discardTable {
+					parts := strings.SplitN(k, " -> ", 2)
+					if len(parts) == 2 && parts[1] == gn && w.ownerIn(f, []string{parts[0]}) != "" {
+						base = k
+					}
+				}
+			}
 			if w.isGoErrorCall(call) {
 				// goError/GoError return their argument: dropping the copy loses nothing
 				r.ok(key, w.instrPos(call), "flags→error conversion returns its argument unchanged", false)
